@@ -163,169 +163,221 @@ func TestVerifC33(t *testing.T) {
 		"threads": nThreads, "ops_per_thread": "1 (threads 0 and 1 may get 2 in the thorough tier)", "alphabet": fmt.Sprint(c33ops), "delay_bound": maxDev,
 		"crash": "restart on every prefix of the state-store write log (0..n writes) after the concurrent phase",
 		"peers": 1}},
-		func(x *mc.X) {
-			// Payments are issued by accounting's single settle goroutine, one at a time: only thread 0
-			// pays. Mode 1 is one driver thread alternating traffic and payments (two cheques in a row).
-			var progs [][]c33alpha
-			if x.Choose(2) == 1 {
-				progs = [][]c33alpha{{{"retrieve", 3}, {"pay", 1}, {"retrieve", 7}, {"pay", 1}}}
-				if mc.Thorough() && x.Bool() {
-					progs = append(progs, []c33alpha{{"transfer", 2}})
-				}
-			} else {
-				progs = make([][]c33alpha, nThreads)
-				prev := -1
-				for i := range progs {
-					menu := len(c33ops)
-					if i > 0 {
-						menu-- // "pay" is the last entry: traffic updates only
-					}
-					k := x.Choose(menu)
-					if i > 1 && k < prev {
-						x.Logf("symmetric duplicate skipped")
-						return
-					}
-					prev = k
-					progs[i] = append(progs[i], c33ops[k])
-					if i == 0 && c33ops[k].kind != "pay" && x.Bool() {
-						progs[i] = append(progs[i], c33alpha{"pay", 1})
-					}
-				}
-				if mc.Thorough() {
-					if k := x.Choose(len(c33ops)); k > 0 {
-						progs[0] = append(progs[0], c33ops[k-1])
-					}
-				}
+		func(x *mc.X) { c33explore(x, nThreads, false) })
+}
+
+type c33shape struct {
+	chain   common.Address
+	overlay boson.Address
+}
+
+// c33Shapes: one peer per first hex digit of the chain address (derived from the keys 0x03.., 0x04.., ...)
+var c33Shapes = func() []c33shape {
+	var out []c33shape
+	seen := map[byte]bool{}
+	for seed := 3; seed < 250 && len(out) < 16; seed++ {
+		b := make([]byte, 32)
+		for i := range b {
+			b[i] = byte(seed)
+		}
+		a, err := crypto.NewDefaultSigner(crypto.Secp256k1PrivateKeyFromBytes(b)).EthereumAddress()
+		if err != nil {
+			continue
+		}
+		d := a[0] >> 4
+		if seen[d] {
+			continue
+		}
+		seen[d] = true
+		ov := make([]byte, 32)
+		for i := range ov {
+			ov[i] = byte(seed)
+		}
+		out = append(out, c33shape{a, boson.NewAddress(ov)})
+	}
+	return out
+}()
+
+// TestVerifC33Shapes: the restart clauses for peers of every chain-address shape (the store keys
+// embed the address in hex), default schedule only.
+func TestVerifC33Shapes(t *testing.T) {
+	mc.Run(t, mc.Config{ID: "C33", Name: "C33-restart-address-shapes", MaxDev: 0, Params: map[string]interface{}{
+		"peers": fmt.Sprintf("%d chain addresses, one per first hex digit", len(c33Shapes)), "program": "retrieve 3, pay, transfer 2, retrieve 7, pay on one thread",
+		"crash": "restart on every prefix of the state-store write log"}},
+		func(x *mc.X) { c33explore(x, 1, true) })
+}
+
+func c33explore(x *mc.X, nThreads int, shapes bool) {
+	// Payments are issued by accounting's single settle goroutine, one at a time: only thread 0
+	// pays. Mode 1 is one driver thread alternating traffic and payments (two cheques in a row).
+	var progs [][]c33alpha
+	if shapes {
+		// peer identities by the shape of their chain address (first hex digit 0..f): one
+		// driver thread, traffic and payments in both directions, then every restart point
+		k := x.Choose(len(c33Shapes))
+		savedA, savedO := c33PeerA, c33PeerO
+		c33PeerA, c33PeerO = c33Shapes[k].chain, c33Shapes[k].overlay
+		defer func() { c33PeerA, c33PeerO = savedA, savedO }()
+		x.Logf("peer chain address %s", c33PeerA.Hex())
+		progs = [][]c33alpha{{{"retrieve", 3}, {"pay", 1}, {"transfer", 2}, {"retrieve", 7}, {"pay", 1}}}
+	} else if x.Choose(2) == 1 {
+		progs = [][]c33alpha{{{"retrieve", 3}, {"pay", 1}, {"retrieve", 7}, {"pay", 1}}}
+		if mc.Thorough() && x.Bool() {
+			progs = append(progs, []c33alpha{{"transfer", 2}})
+		}
+	} else {
+		progs = make([][]c33alpha, nThreads)
+		prev := -1
+		for i := range progs {
+			menu := len(c33ops)
+			if i > 0 {
+				menu-- // "pay" is the last entry: traffic updates only
 			}
-			x.Logf("programs %v", progs)
-			clock := 0
-			base := mock.NewStateStore()
-			st := &c33store{StateStorer: base, clock: &clock}
-			proto := &c33Proto{clock: &clock}
-			var done []*c33done
-			setupWrites := 0
-			verdict := vsched.Run(x, vsched.Options{MaxSteps: 20000, DelayBounded: true}, func(s *vsched.S) {
-				svc := c33start(x, st, proto, true)
-				setupWrites = len(st.log)
-				for i := range progs {
-					prog, name := progs[i], fmt.Sprintf("T%d", i)
-					s.Go(name, func() {
-						for _, a := range prog {
-							d := &c33done{op: a}
-							done = append(done, d)
-							var err error
-							switch a.kind {
-							case "retrieve":
-								err = svc.PutRetrieveTraffic(c33PeerO, big.NewInt(a.amt))
-							case "transfer":
-								err = svc.PutTransferTraffic(c33PeerO, big.NewInt(a.amt))
-							case "pay":
-								err = svc.Pay(context.Background(), c33PeerO, big.NewInt(a.amt))
-							}
-							if err != nil && err != ErrInsufficientFunds {
-								x.Broken("operation %v failed: %v", a, err)
-							}
-							if a.kind == "pay" {
-								d.cheque = svc.getTraffic(c33PeerA).retrieveChequeTraffic.Int64()
-							}
-							clock++
-							d.ret = clock
-						}
-					})
-				}
-				s.Quiesce()
-				if s.Preemptions() > 0 {
-					x.Nontrivial()
+			k := x.Choose(menu)
+			if i > 1 && k < prev {
+				x.Logf("symmetric duplicate skipped")
+				return
+			}
+			prev = k
+			progs[i] = append(progs[i], c33ops[k])
+			if i == 0 && c33ops[k].kind != "pay" && x.Bool() {
+				progs[i] = append(progs[i], c33alpha{"pay", 1})
+			}
+		}
+		if mc.Thorough() {
+			if k := x.Choose(len(c33ops)); k > 0 {
+				progs[0] = append(progs[0], c33ops[k-1])
+			}
+		}
+	}
+	x.Logf("programs %v", progs)
+	clock := 0
+	base := mock.NewStateStore()
+	st := &c33store{StateStorer: base, clock: &clock}
+	proto := &c33Proto{clock: &clock}
+	var done []*c33done
+	setupWrites := 0
+	verdict := vsched.Run(x, vsched.Options{MaxSteps: 20000, DelayBounded: true}, func(s *vsched.S) {
+		svc := c33start(x, st, proto, true)
+		setupWrites = len(st.log)
+		for i := range progs {
+			prog, name := progs[i], fmt.Sprintf("T%d", i)
+			s.Go(name, func() {
+				for _, a := range prog {
+					d := &c33done{op: a}
+					done = append(done, d)
+					var err error
+					switch a.kind {
+					case "retrieve":
+						err = svc.PutRetrieveTraffic(c33PeerO, big.NewInt(a.amt))
+					case "transfer":
+						err = svc.PutTransferTraffic(c33PeerO, big.NewInt(a.amt))
+					case "pay":
+						err = svc.Pay(context.Background(), c33PeerO, big.NewInt(a.amt))
+					}
+					if err != nil && err != ErrInsufficientFunds {
+						x.Broken("operation %v failed: %v", a, err)
+					}
+					if a.kind == "pay" {
+						d.cheque = svc.getTraffic(c33PeerA).retrieveChequeTraffic.Int64()
+					}
+					clock++
+					d.ret = clock
 				}
 			})
-			if verdict != "" {
-				x.Fail("deadlock", "scheduler verdict %s", verdict)
+		}
+		s.Quiesce()
+		if s.Preemptions() > 0 {
+			x.Nontrivial()
+		}
+	})
+	if verdict != "" {
+		x.Fail("deadlock", "scheduler verdict %s", verdict)
+	}
+	// ---- restart at a prefix of the write log ------------------------------------
+	n := len(st.log) - setupWrites
+	k := x.Choose(n + 1) // 0 => everything persisted ... choice c keeps n-c writes
+	keep := setupWrites + n - k
+	cutClock := 1 << 30
+	if keep < len(st.log) {
+		cutClock = st.log[keep].clock // the first dropped write was issued at this clock
+	}
+	lastKept := 0
+	if keep > 0 {
+		lastKept = st.log[keep-1].clock
+	}
+	img := mock.NewStateStore()
+	for _, w := range st.log[:keep] {
+		if w.val == nil {
+			_ = img.Delete(w.key)
+		} else {
+			x.NoErr(img.Put(w.key, w.val), "rebuild image")
+		}
+	}
+	// acknowledged before the crash = returned before the last surviving write was issued
+	// (the crash lies after that write); with nothing dropped everything is acknowledged
+	var ackRetrieve, ackTransfer, allRetrieve, ackCheque int64
+	for _, d := range done {
+		acked := d.ret != 0 && (keep == len(st.log) || d.ret < lastKept)
+		if acked && d.cheque > ackCheque {
+			ackCheque = d.cheque
+		}
+		switch d.op.kind {
+		case "retrieve":
+			allRetrieve += d.op.amt
+			if acked {
+				ackRetrieve += d.op.amt
 			}
-			// ---- restart at a prefix of the write log ------------------------------------
-			n := len(st.log) - setupWrites
-			k := x.Choose(n + 1) // 0 => everything persisted ... choice c keeps n-c writes
-			keep := setupWrites + n - k
-			cutClock := 1 << 30
-			if keep < len(st.log) {
-				cutClock = st.log[keep].clock // the first dropped write was issued at this clock
+		case "transfer":
+			if acked {
+				ackTransfer += d.op.amt
 			}
-			lastKept := 0
-			if keep > 0 {
-				lastKept = st.log[keep-1].clock
+		}
+	}
+	var ackEmitted int64
+	for i, c := range proto.emitted {
+		if keep == len(st.log) || proto.clocks[i] < lastKept {
+			if c > ackEmitted {
+				ackEmitted = c
 			}
-			img := mock.NewStateStore()
-			for _, w := range st.log[:keep] {
-				if w.val == nil {
-					_ = img.Delete(w.key)
-				} else {
-					x.NoErr(img.Put(w.key, w.val), "rebuild image")
-				}
+		}
+	}
+	_ = cutClock
+	x.Logf("write log: %d writes after setup, restart keeps %d; acknowledged retrieve=%d transfer=%d emitted-cumulative=%d", n, n-k, ackRetrieve, ackTransfer, ackEmitted)
+	if k > 0 {
+		x.Tag("crash-inside-history")
+	}
+	proto2 := &c33Proto{clock: &clock}
+	verdict = vsched.Run(x, vsched.Options{MaxSteps: 20000, Sequential: true}, func(s *vsched.S) {
+		svc := c33start(x, img, proto2, false)
+		tr := svc.getTraffic(c33PeerA)
+		gotR, gotT := tr.retrieveTraffic.Int64(), tr.transferTraffic.Int64()
+		x.Logf("restored retrieve=%d transfer=%d cheque=%d", gotR, gotT, tr.retrieveChequeTraffic.Int64())
+		if gotR < ackRetrieve {
+			x.Fail("restored-retrieve-total-below-acknowledged", "after restart the consumed-traffic total is %d but %d had been acknowledged before the restart (programs %v, %d of %d writes survived)", gotR, ackRetrieve, progs, n-k, n)
+		}
+		if got := tr.retrieveChequeTraffic.Int64(); got < ackCheque {
+			x.Fail("restored-last-cheque-below-acknowledged", "after restart the last sent cumulative payout is %d but a payment that had returned before the restart had sent %d (programs %v, %d of %d writes survived)", got, ackCheque, progs, n-k, n)
+		}
+		if gotT < ackTransfer {
+			x.Fail("restored-transfer-total-below-acknowledged", "after restart the served-traffic total is %d but %d had been acknowledged before the restart (programs %v, %d of %d writes survived)", gotT, ackTransfer, progs, n-k, n)
+		}
+		// a cheque issued after the restart
+		_ = svc.PutRetrieveTraffic(c33PeerO, big.NewInt(6))
+		_ = svc.Pay(context.Background(), c33PeerO, big.NewInt(1))
+		s.Quiesce()
+		for _, c := range proto2.emitted {
+			if c > allRetrieve+6 {
+				x.Fail("cheque-after-restart-exceeds-traffic", "cheque with cumulative payout %d issued after restart although only %d traffic was ever consumed", c, allRetrieve+6)
 			}
-			// acknowledged before the crash = returned before the last surviving write was issued
-			// (the crash lies after that write); with nothing dropped everything is acknowledged
-			var ackRetrieve, ackTransfer, allRetrieve, ackCheque int64
-			for _, d := range done {
-				acked := d.ret != 0 && (keep == len(st.log) || d.ret < lastKept)
-				if acked && d.cheque > ackCheque {
-					ackCheque = d.cheque
-				}
-				switch d.op.kind {
-				case "retrieve":
-					allRetrieve += d.op.amt
-					if acked {
-						ackRetrieve += d.op.amt
-					}
-				case "transfer":
-					if acked {
-						ackTransfer += d.op.amt
-					}
-				}
+			if k == 0 && c <= ackEmitted {
+				x.Fail("cheque-after-clean-restart-not-increasing", "cheque with cumulative payout %d issued after a clean restart; %d had already been sent", c, ackEmitted)
 			}
-			var ackEmitted int64
-			for i, c := range proto.emitted {
-				if keep == len(st.log) || proto.clocks[i] < lastKept {
-					if c > ackEmitted {
-						ackEmitted = c
-					}
-				}
-			}
-			_ = cutClock
-			x.Logf("write log: %d writes after setup, restart keeps %d; acknowledged retrieve=%d transfer=%d emitted-cumulative=%d", n, n-k, ackRetrieve, ackTransfer, ackEmitted)
-			if k > 0 {
-				x.Tag("crash-inside-history")
-			}
-			proto2 := &c33Proto{clock: &clock}
-			verdict = vsched.Run(x, vsched.Options{MaxSteps: 20000, Sequential: true}, func(s *vsched.S) {
-				svc := c33start(x, img, proto2, false)
-				tr := svc.getTraffic(c33PeerA)
-				gotR, gotT := tr.retrieveTraffic.Int64(), tr.transferTraffic.Int64()
-				x.Logf("restored retrieve=%d transfer=%d cheque=%d", gotR, gotT, tr.retrieveChequeTraffic.Int64())
-				if gotR < ackRetrieve {
-					x.Fail("restored-retrieve-total-below-acknowledged", "after restart the consumed-traffic total is %d but %d had been acknowledged before the restart (programs %v, %d of %d writes survived)", gotR, ackRetrieve, progs, n-k, n)
-				}
-				if got := tr.retrieveChequeTraffic.Int64(); got < ackCheque {
-					x.Fail("restored-last-cheque-below-acknowledged", "after restart the last sent cumulative payout is %d but a payment that had returned before the restart had sent %d (programs %v, %d of %d writes survived)", got, ackCheque, progs, n-k, n)
-				}
-				if gotT < ackTransfer {
-					x.Fail("restored-transfer-total-below-acknowledged", "after restart the served-traffic total is %d but %d had been acknowledged before the restart (programs %v, %d of %d writes survived)", gotT, ackTransfer, progs, n-k, n)
-				}
-				// a cheque issued after the restart
-				_ = svc.PutRetrieveTraffic(c33PeerO, big.NewInt(6))
-				_ = svc.Pay(context.Background(), c33PeerO, big.NewInt(1))
-				s.Quiesce()
-				for _, c := range proto2.emitted {
-					if c > allRetrieve+6 {
-						x.Fail("cheque-after-restart-exceeds-traffic", "cheque with cumulative payout %d issued after restart although only %d traffic was ever consumed", c, allRetrieve+6)
-					}
-					if k == 0 && c <= ackEmitted {
-						x.Fail("cheque-after-clean-restart-not-increasing", "cheque with cumulative payout %d issued after a clean restart; %d had already been sent", c, ackEmitted)
-					}
-				}
-			})
-			if verdict != "" {
-				x.Fail("deadlock-after-restart", "scheduler verdict %s", verdict)
-			}
-			x.Outcome(fmt.Sprintf("writes=%d", n))
-			x.State(fmt.Sprintf("%v|%d|%d|%d|%d|%v|%v", progs, n, k, ackRetrieve, ackTransfer, proto.emitted, proto2.emitted))
-		})
+		}
+	})
+	if verdict != "" {
+		x.Fail("deadlock-after-restart", "scheduler verdict %s", verdict)
+	}
+	x.Outcome(fmt.Sprintf("writes=%d", n))
+	x.State(fmt.Sprintf("%v|%d|%d|%d|%d|%v|%v", progs, n, k, ackRetrieve, ackTransfer, proto.emitted, proto2.emitted))
 }
